@@ -49,6 +49,9 @@ Gen/Dispatch.vos Gen/Dispatch.vok Gen/Dispatch.required_vos: Gen/Dispatch.v Core
 Gen/ObjPin.vo Gen/ObjPin.glob Gen/ObjPin.v.beautified Gen/ObjPin.required_vo: Gen/ObjPin.v 
 Gen/ObjPin.vio: Gen/ObjPin.v 
 Gen/ObjPin.vos Gen/ObjPin.vok Gen/ObjPin.required_vos: Gen/ObjPin.v 
+Gen/Testing.vo Gen/Testing.glob Gen/Testing.v.beautified Gen/Testing.required_vo: Gen/Testing.v Core/Base.vo Core/Prog.vo Py/Sig.vo Sem/Interp.vo Sem/Model.vo Gen/Validators.vo
+Gen/Testing.vio: Gen/Testing.v Core/Base.vio Core/Prog.vio Py/Sig.vio Sem/Interp.vio Sem/Model.vio Gen/Validators.vio
+Gen/Testing.vos Gen/Testing.vok Gen/Testing.required_vos: Gen/Testing.v Core/Base.vos Core/Prog.vos Py/Sig.vos Sem/Interp.vos Sem/Model.vos Gen/Validators.vos
 Sem/Scenario.vo Sem/Scenario.glob Sem/Scenario.v.beautified Sem/Scenario.required_vo: Sem/Scenario.v Core/Base.vo Core/Prog.vo Py/Sig.vo Sem/Interp.vo Sem/InterpFacts.vo Sem/Model.vo Sem/Show.vo Gen/State.vo Sem/ScnSwitch.vo Gen/Validators.vo Gen/HasPatcher.vo Gen/Contracts.vo Gen/Dispatch.vo
 Sem/Scenario.vio: Sem/Scenario.v Core/Base.vio Core/Prog.vio Py/Sig.vio Sem/Interp.vio Sem/InterpFacts.vio Sem/Model.vio Sem/Show.vio Gen/State.vio Sem/ScnSwitch.vio Gen/Validators.vio Gen/HasPatcher.vio Gen/Contracts.vio Gen/Dispatch.vio
 Sem/Scenario.vos Sem/Scenario.vok Sem/Scenario.required_vos: Sem/Scenario.v Core/Base.vos Core/Prog.vos Py/Sig.vos Sem/Interp.vos Sem/InterpFacts.vos Sem/Model.vos Sem/Show.vos Gen/State.vos Sem/ScnSwitch.vos Gen/Validators.vos Gen/HasPatcher.vos Gen/Contracts.vos Gen/Dispatch.vos
@@ -178,3 +181,9 @@ Thm/C20/Imports.vos Thm/C20/Imports.vok Thm/C20/Imports.required_vos: Thm/C20/Im
 Props/C20.vo Props/C20.glob Props/C20.v.beautified Props/C20.required_vo: Props/C20.v Core/Base.vo Sem/Show.vo Gen/HasPatcher.vo Sem/ImportModel.vo Gen/ObjPin.vo Thm/C20/Imports.vo
 Props/C20.vio: Props/C20.v Core/Base.vio Sem/Show.vio Gen/HasPatcher.vio Sem/ImportModel.vio Gen/ObjPin.vio Thm/C20/Imports.vio
 Props/C20.vos Props/C20.vok Props/C20.required_vos: Props/C20.v Core/Base.vos Sem/Show.vos Gen/HasPatcher.vos Sem/ImportModel.vos Gen/ObjPin.vos Thm/C20/Imports.vos
+Thm/C15/Cases.vo Thm/C15/Cases.glob Thm/C15/Cases.v.beautified Thm/C15/Cases.required_vo: Thm/C15/Cases.v Core/Base.vo Core/Prog.vo Py/Sig.vo Sem/Interp.vo Sem/InterpFacts.vo Sem/StmtFacts.vo Sem/Model.vo Gen/Validators.vo Thm/Common/Loops.vo Gen/Testing.vo
+Thm/C15/Cases.vio: Thm/C15/Cases.v Core/Base.vio Core/Prog.vio Py/Sig.vio Sem/Interp.vio Sem/InterpFacts.vio Sem/StmtFacts.vio Sem/Model.vio Gen/Validators.vio Thm/Common/Loops.vio Gen/Testing.vio
+Thm/C15/Cases.vos Thm/C15/Cases.vok Thm/C15/Cases.required_vos: Thm/C15/Cases.v Core/Base.vos Core/Prog.vos Py/Sig.vos Sem/Interp.vos Sem/InterpFacts.vos Sem/StmtFacts.vos Sem/Model.vos Gen/Validators.vos Thm/Common/Loops.vos Gen/Testing.vos
+Props/C15.vo Props/C15.glob Props/C15.v.beautified Props/C15.required_vo: Props/C15.v Core/Base.vo Core/Prog.vo Py/Sig.vo Sem/Interp.vo Sem/InterpFacts.vo Sem/Model.vo Gen/Validators.vo Thm/Common/Loops.vo Gen/Testing.vo Thm/C15/Cases.vo
+Props/C15.vio: Props/C15.v Core/Base.vio Core/Prog.vio Py/Sig.vio Sem/Interp.vio Sem/InterpFacts.vio Sem/Model.vio Gen/Validators.vio Thm/Common/Loops.vio Gen/Testing.vio Thm/C15/Cases.vio
+Props/C15.vos Props/C15.vok Props/C15.required_vos: Props/C15.v Core/Base.vos Core/Prog.vos Py/Sig.vos Sem/Interp.vos Sem/InterpFacts.vos Sem/Model.vos Gen/Validators.vos Thm/Common/Loops.vos Gen/Testing.vos Thm/C15/Cases.vos
